@@ -6,6 +6,7 @@
      sender account   cfg  = sequence of the weights of its registered signers 1..Len(cfg)   (<<>> = plain account)
      signature        [by, v, old]
                       by  = 0 the account's own key | i >= 1 the key of registered signer i | 999 a foreign key
+                            | 997 nobody (malformed signature bytes)
                       v   = 0 the signature as produced | 1 its s -> n-s re-encoding (same signer, other bytes)
                       old = TRUE: the signature was made BEFORE field f of the transaction was changed
      c.sigs           the sender-side signatures, in transaction order (removal / repetition / substitution of
@@ -20,12 +21,16 @@
    Authorized is the property's notion (sets of distinct authorising holders).  Accepts is the decision procedure
    of the node (tx_processor.go verifyTransactionSigs / checkSignersWeight): recover every signature over the
    signing hash, look at the first one (plain account) or add up weights (multi-signature account).
-   TLC enumerates the case space and checks that Accepts never exceeds Authorized, that it does not fall short
-   of it on canonical cases, and the algebraic clauses of the property (repetition, removal, foreign keys,
-   re-encoding, tampering, payer).  Dev holds named deviations of the real code (negative control). *)
+   The system: an account (cfg) to which cases are offered one at a time; Offer(c) hands the transaction to a miner
+   (a packaged re-configuration replaces cfg), Validate shows the resulting block to another node.  TLC enumerates
+   the case space (every Offer step of every reachable configuration) and checks on each step that Accepts never
+   exceeds Authorized, that it does not fall short of it on canonical cases, and the algebraic clauses of the
+   property (repetition, removal, foreign keys, re-encoding, tampering, payer, exact threshold).  Dev holds named
+   deviations of the real code (off in the design run, on in the negative control). *)
 EXTENDS Integers, Sequences, FiniteSets, TLC
 CONSTANTS Weights,      \* weights a registered signer may have
           MaxSigners,   \* registered signers per account
+          ExtraCfgs,    \* further account configurations (beyond MaxSigners)
           MaxSigs,      \* signatures per transaction in the signature sweep
           TamperFields, \* fields tampered in the tamper sweep
           PayCfgs,      \* payer account configurations
@@ -35,12 +40,13 @@ CONSTANTS Weights,      \* weights a registered signer may have
           Kinds,        \* transaction kinds (besides transfer) in the kind sweep
           ReconfCfgs,   \* sender configurations used in the re-configuration sweep
           NewCfgs,      \* target configurations of re-configuration transactions
-          Slices,       \* which sweeps are generated: subset of {"sigs","tamper","payer","box","kinds","reconf"}
+          Slices,       \* which sweeps are generated: subset of {"sigs","tamper","payer","junk","box","kinds","reconf"}
           Dev           \* deviations switched on (design: {})
 
 Threshold == 100
 Own == 0
 Foreign == 999
+Junk == 997                                   \* "signed" by nobody: 65 bytes with an impossible recovery id (v = 0) / 64 bytes (v = 1)
 Fields == {"to", "amount", "gasPrice", "gasLimit", "data", "expiration", "chainID", "type", "toName", "message",
            "gasPayer", "version"}
 GasTerms == {"gasPrice", "gasLimit"}
@@ -53,7 +59,7 @@ SumSeq(s) == IF s = <<>> THEN 0 ELSE Head(s) + SumSeq(Tail(s))
 Sorted(w) == \A i \in 1..(Len(w) - 1) : w[i] <= w[i + 1]
 \* account configurations ModifySignersTx admits (weights 1..100, total >= 100), up to the order of the signers
 MultiCfgs == {w \in SeqsUpTo(Weights, MaxSigners) : Len(w) >= 1 /\ Sorted(w) /\ SumSeq(w) >= Threshold}
-Configs == {<<>>} \cup MultiCfgs
+Configs == {<<>>} \cup MultiCfgs \cup ExtraCfgs
 
 (* ------------------------------------------------------------------ the property's notion *)
 Weight(cfg, p) == IF p \in 1..Len(cfg) THEN cfg[p] ELSE 0
@@ -86,7 +92,9 @@ CheckWeight(D, cfg, rec) ==
      ELSE IF "Dev_MultisigCountsRepeatedSigner" \in D
           THEN SumSeq([i \in 1..Len(rec) |-> Weight(cfg, rec[i])]) >= Threshold     \* weight added per signature
           ELSE SumW(cfg, Range(rec)) >= Threshold                                   \* weight added per distinct signer
+WellFormed(sigs) == \A i \in 1..Len(sigs) : sigs[i].by # Junk
 AcceptsD(D, cfg, c) ==
+  /\ WellFormed(c.sigs) /\ WellFormed(c.psigs)        \* recoverSigners fails on the first signature that does not recover
   /\ IF Len(c.psigs) >= 1 THEN CheckWeight(D, c.pcfg, Recovered(PayerScope, c.f, c.psigs)) ELSE c.pay = "self"
   /\ c.f # "gasPayer"                      \* the named payer is another (plain) account: nobody signed for it
   /\ CheckWeight(D, cfg, Recovered(SenderScope(c), c.f, c.sigs))
@@ -122,15 +130,21 @@ PayerCases(cfg) ==
   IF cfg \notin PaySenders THEN {} ELSE
   UNION {UNION {{Case(cfg, "transfer", ss, f, "payer", pc, ps, "none", NoCfg) :
                    ss \in SenderVariants(cfg, f # "none"), ps \in SeqsUpTo(PayerSigs(pc, f), 2)} : pc \in PayCfgs} : f \in PayFields \cup {"none"}}
-\* 4. inside a box
+PayerVariants(pc) == {SigsOf(Full(pc), FALSE), <<>>, <<Sig(Foreign, 0, FALSE)>>}
+                     \cup (IF pc = <<>> THEN {} ELSE {<<Sig(1, 0, FALSE), Sig(1, 1, FALSE)>>})
+\* 3b. malformed signature bytes among at most two signatures
+JunkCases(cfg) == {Plain(cfg, "transfer", s) : s \in SeqsUpTo(FreshSigs(cfg) \cup {Sig(Junk, 0, FALSE), Sig(Junk, 1, FALSE)}, 2)
+                                                      \ SeqsUpTo(FreshSigs(cfg), 2)}
+\* 4. inside a box (also: a reimbursed transaction inside a box)
 BoxCases(cfg) ==
   IF cfg \notin BoxCfgs THEN {} ELSE
   {Case(cfg, "transfer", s, "none", "self", NoCfg, <<>>, b, NoCfg) : s \in SeqsUpTo(FreshSigs(cfg), 2), b \in {"ok", "bad"}} \cup
-  {Case(cfg, "transfer", SigsOf(Full(cfg), TRUE), f, "self", NoCfg, <<>>, "ok", NoCfg) : f \in TamperFields \ {"version"}}   \* (a box with a sub-transaction of another version does not parse)
+  {Case(cfg, "transfer", SigsOf(Full(cfg), TRUE), f, "self", NoCfg, <<>>, "ok", NoCfg) : f \in TamperFields \ {"version"}} \cup   \* (a box with a sub-transaction of another version does not parse)
+  UNION {{Case(cfg, "transfer", ss, "none", "payer", pc, ps, "ok", NoCfg) : ss \in SenderVariants(cfg, FALSE), ps \in PayerVariants(pc)} : pc \in PayCfgs}
 \* 5. other kinds of transaction
 KindCases(cfg) ==
   {Plain(cfg, k, s) : k \in Kinds, s \in SeqsUpTo(FreshSigs(cfg), 2)} \cup
-  {Case(cfg, k, SigsOf(Full(cfg), TRUE), f, "self", NoCfg, <<>>, "none", NoCfg) : k \in Kinds, f \in TamperFields \cap {"to", "data", "type", "amount"}}
+  {Case(cfg, k, SigsOf(Full(cfg), TRUE), f, "self", NoCfg, <<>>, "none", NoCfg) : k \in Kinds \cap {"vote"}, f \in TamperFields \cap {"to", "data", "type", "amount"}}
 \* 6. the account's signers are replaced (the decision is taken against the signers registered BEFORE the transaction)
 ReconfCases(cfg) ==
   IF cfg \notin ReconfCfgs THEN {} ELSE
@@ -139,6 +153,7 @@ ReconfCases(cfg) ==
 Cases(cfg) == (IF "sigs" \in Slices THEN SigCases(cfg) ELSE {}) \cup
               (IF "tamper" \in Slices THEN {c \in TamperCases(cfg) : \E i \in 1..Len(c.sigs) : c.sigs[i].old} ELSE {}) \cup
               (IF "payer" \in Slices THEN PayerCases(cfg) ELSE {}) \cup
+              (IF "junk" \in Slices THEN JunkCases(cfg) ELSE {}) \cup
               (IF "box" \in Slices THEN BoxCases(cfg) ELSE {}) \cup
               (IF "kinds" \in Slices THEN KindCases(cfg) ELSE {}) \cup
               (IF "reconf" \in Slices THEN ReconfCases(cfg) ELSE {})
@@ -189,9 +204,9 @@ CRepeatNeverHelps(k, c, a) ==
 NotForeign(s) == s.by # Foreign
 CForeignNeverHelps(k, c, a) ==
   a => Accepts(k, [c EXCEPT !.sigs = SelectSeq(c.sigs, NotForeign), !.psigs = SelectSeq(c.psigs, NotForeign)])
-\* removing a signature from a multi-signature transaction that is refused never makes it accepted
+\* removing a (well-formed) signature from a multi-signature transaction that is refused never makes it accepted
 CRemovalNeverHelps(k, c, a) ==
-  ~a /\ k # <<>> => \A i \in 1..Len(c.sigs) : ~Accepts(k, [c EXCEPT !.sigs = Without(c.sigs, i)])
+  ~a /\ k # <<>> => \A i \in 1..Len(c.sigs) : c.sigs[i].by # Junk => ~Accepts(k, [c EXCEPT !.sigs = Without(c.sigs, i)])
 \* the encoding of a signature is irrelevant for authorisation
 CEncodingIrrelevant(k, c, a) ==
   Authorized(k, c) <=> Authorized(k, [c EXCEPT !.sigs = [i \in 1..Len(c.sigs) |-> [c.sigs[i] EXCEPT !.v = 0]],
@@ -204,7 +219,7 @@ CPayerBinds(k, c, a) ==
   c.pay = "payer" /\ (c.psigs = <<>> \/ (c.f \in PayerScope /\ \A i \in 1..Len(c.psigs) : c.psigs[i].old)) => ~a
 \* the threshold is exact
 CThresholdExact(k, c, a) ==
-  k # <<>> /\ c.f = "none" /\ c.pay = "self" /\ c.box = "none" =>
+  k # <<>> /\ c.f = "none" /\ c.pay = "self" /\ c.box = "none" /\ WellFormed(c.sigs) =>
     (a <=> SumW(k, Range([i \in 1..Len(c.sigs) |-> c.sigs[i].by])) >= Threshold)
 \* a re-configuration takes effect exactly when it is packaged
 CReconf(k, c, a) == cfg' = IF a /\ c.kind = "signers" THEN c.ncfg ELSE k
@@ -219,7 +234,4 @@ TamperFalsifies == [][OnOffer(CTamperFalsifies)]_vars
 PayerBinds == [][OnOffer(CPayerBinds)]_vars
 ThresholdExact == [][OnOffer(CThresholdExact)]_vars
 Reconf == [][OnOffer(CReconf)]_vars
-\* vacuity guards for the enumeration itself: both outcomes and every slice occur
-SomeAccepted == \E c \in AllCases : Accepts(c.cfg, c)
-SomeRefused == \E c \in AllCases : ~Accepts(c.cfg, c)
 ====
